@@ -389,3 +389,33 @@ func VH_C03_statelessNodes() {
 	vAssert(len(log) == 2 && log[0] == 1 && log[1] == 2 && end.visits == 1, "visited-node-is-the-one-the-table-determines")
 	vCover("stateless-nodes")
 }
+
+// a flow is a node: it may be the target of one of its own connections. S -again-> F (the flow
+// itself, run as a node from its start) and S -done-> T; the flow reports T's action "end", on
+// which the enclosing execution of F goes on to U. Each execution of F follows its own path: the
+// recursion (bounded by S's counter) unwinds level by level through U
+func VH_C03_selfNested() {
+	vUnwind(12)
+	levels := 1 + vChoice("levels", vParam("levels", 3)) // executions of F nested in each other
+	s := &c10CountNode{until: levels, more: "again"}
+	t, u := &vSimpleNode{act: "end"}, &vSimpleNode{act: "unwound"}
+	f := NewFlow(s)
+	f.Connect(s, "again", f).Connect(s, "done", t).Connect(f, "end", u)
+	// the innermost execution ends after T and reports "end": the one around it goes on to U and
+	// reports "unwound" - for which F has a connection (to U again) only in the second variant
+	always := vNondet[bool]("unwoundIsConnectedToo")
+	if always {
+		f.Connect(f, "unwound", u)
+	}
+	err := f.Run(vNewCtx(), NewSharedStore())
+	vAssert(err == nil, "flow-follows-the-transition-table")
+	wantU := levels - 1
+	if !always && wantU > 1 {
+		wantU = 1
+	}
+	if levels > 1 {
+		vCover("flow-nested-in-itself")
+	}
+	vAssert(s.visits == levels && t.visits == 1 && u.visits == wantU, "flow-follows-the-transition-table")
+	vCover("self-nested")
+}
